@@ -30,6 +30,8 @@ NUM = (N, I, R)
 #  ('cint',a,l,u) ('oint',a,l,u)  a Mem real_closed_interval l u / real_open_interval l u
 #  ('ofint',a) ('pow',ty,a,n)     constructs z3wrapper.convert does not support
 #  ('feq',f,g,dom,cod)            equation between two function variables
+#  ('all'|'ex',iname,ty,body,stored)  binder whose holpy term stores the name `stored`; `iname` is
+#                                  unique inside the goal and only used for scoping in this AST
 # ---------------------------------------------------------------------------------------------
 
 
@@ -99,10 +101,18 @@ class Holpy:
             return T.Eq(tm(a[2]), tm(a[3]))
         if k == "ite":
             return self.logic.mk_if(tm(a[2]), tm(a[3]), tm(a[4]))
-        if k == "all":
-            return T.Forall(T.Var(a[1], self.ty(a[2])), tm(a[3]))
-        if k == "ex":
-            return T.Exists(T.Var(a[1], self.ty(a[2])), tm(a[3]))
+        if k in ("all", "ex"):
+            ty = self.ty(a[2])
+            if len(a) == 5:
+                # de Bruijn term built directly: a[1] only scopes inside this AST, the binder of
+                # the holpy term stores the name a[4] (equal stored names at nested binders arise by
+                # beta-reduction; Forall/Exists could not build them: they abstract by name)
+                body = tm(a[3]).abstract_over(T.Var(a[1], ty))
+                q = T.forall(ty) if k == "all" else T.exists(ty)
+                return q(T.Abs(a[4], ty, body))
+            if k == "all":
+                return T.Forall(T.Var(a[1], ty), tm(a[3]))
+            return T.Exists(T.Var(a[1], ty), tm(a[3]))
         if k in ("add", "sub", "mul"):
             op = {"add": T.plus, "sub": T.minus, "mul": T.times}[k]
             return op(self.ty(a[1]))(tm(a[2]), tm(a[3]))
@@ -331,16 +341,36 @@ def size(a):
 # ---------------------------------------------------------------------------------------------
 # Independent guard-correct encoding into Z3 (own names; nothing shared with z3wrapper.convert).
 # ---------------------------------------------------------------------------------------------
+def int_valued_reals(a):
+    """True when every real-typed subterm of the goal is integer valued by construction (of_nat /
+    of_int of integer terms, integer literals, + - * max min abs if): such a goal can be encoded
+    over Int alone, which Z3 decides far more often than the mixed Int/Real encoding."""
+    k = a[0]
+    if k in ("var", "all", "ex") and a[2] == R:
+        return False
+    if k in ("div", "cint", "oint"):
+        return False
+    if k == "num" and a[1] == R and a[3] != 1:
+        return False
+    if k == "app" and R in (a[2], a[3]):
+        return False
+    if k in ("mem", "feq") and R in a[1:]:
+        return False
+    return all(int_valued_reals(x) for x in a[1:] if isinstance(x, tuple))
+
+
 class Enc:
-    def __init__(self, z3):
+    def __init__(self, z3, real_as_int=False):
         self.z3 = z3
         self.A = z3.DeclareSort("Aorc")
         self.n = 0
         self.side = []
+        self.real_as_int = real_as_int      # only for goals with int_valued_reals
 
     def sort(self, ty):
         z3 = self.z3
-        return {B: z3.BoolSort(), N: z3.IntSort(), I: z3.IntSort(), R: z3.RealSort(), A: self.A}[ty]
+        real = z3.IntSort() if self.real_as_int else z3.RealSort()
+        return {B: z3.BoolSort(), N: z3.IntSort(), I: z3.IntSort(), R: real, A: self.A}[ty]
 
     def const(self, name, ty):
         return self.z3.Const("o_%s_%s" % (name, ty), self.sort(ty))
@@ -353,6 +383,10 @@ class Enc:
 
     def lit(self, ty, p, q):
         z3 = self.z3
+        if ty == R and self.real_as_int:
+            if q != 1:
+                raise ValueError("fraction in the integer encoding")
+            return z3.IntVal(p)
         return z3.RealVal("%d/%d" % (p, q)) if ty == R else z3.IntVal(p)
 
     def enc(self, a, env=()):
@@ -401,6 +435,8 @@ class Enc:
                 return x * y
             return z3.If(x - y >= 0, x - y, z3.IntVal(0)) if a[1] == N else x - y
         if k == "div":
+            if self.real_as_int:
+                raise ValueError("division in the integer encoding")
             x, y = e(a[1]), e(a[2])
             return z3.If(y == 0, z3.RealVal(0), x / y)
         if k == "neg":
@@ -409,7 +445,7 @@ class Enc:
             x, y = e(a[2]), e(a[3])
             return {"le": x <= y, "lt": x < y, "ge": x >= y, "gt": x > y}[k]
         if k in ("ofnat", "ofint"):
-            return z3.ToReal(e(a[1]))
+            return e(a[1]) if self.real_as_int else z3.ToReal(e(a[1]))
         if k == "pow":
             x = e(a[2])
             r = self.lit(a[1], 1, 1)
@@ -869,6 +905,104 @@ class G:
         ]
         return r.choice(fams)()
 
+    # ---- directed families: nested binders with EQUAL stored names (de Bruijn terms as they
+    #      arise by beta-reduction), and of_nat / of_int of variables bound by ! and ? under
+    #      quantifier alternation.  Closed or nearly closed goals; validity decided by the oracles.
+    def pol(self, g):
+        return self.r.choice([g, g, ("not", g), ("imp", g, ("ff",)), ("imp", ("not", g), ("ff",)), ("not", ("not", g)),
+                              ("or", g, ("ff",)), ("imp", ("tt",), g)])
+
+    def relat(self, ty, a, b):
+        op = self.r.choice(["le", "lt", "ge", "gt", "eq", "ne", "le", "ge"])
+        return ("not", ("eq", ty, a, b)) if op == "ne" else (op, ty, a, b)
+
+    def same_name_binders(self):
+        r = self.r
+        ty = r.choice([N, N, I, R])
+        stored = r.choice(["x", "n", "a", "i", "y"])          # some are also free variables of other goals
+        o, i, j = ("var", "o#", ty), ("var", "i#", ty), ("var", "j#", ty)
+        q = lambda: r.choice(["all", "ex"])
+        lit = self.lit(ty)
+        shape = r.randint(0, 5)
+        if shape == 0:
+            g = (q(), "o#", ty, (q(), "i#", ty, self.relat(ty, i, o), stored), stored)
+        elif shape == 1:
+            inner = (q(), "i#", ty, self.relat(ty, i, o), stored)
+            g = (q(), "o#", ty, (r.choice(["and", "imp", "or"]), self.relat(ty, o, lit), inner), stored)
+        elif shape == 2:
+            g = (q(), "o#", ty, (q(), "i#", ty, (q(), "j#", ty,
+                 (r.choice(["and", "or", "imp"]), self.relat(ty, i, o), self.relat(ty, j, i)), stored), stored), stored)
+        elif shape == 3:
+            fv = ("var", stored, ty)
+            g = (q(), "o#", ty, (q(), "i#", ty, (r.choice(["and", "or"]), self.relat(ty, i, o), self.relat(ty, o, fv)), stored), stored)
+        elif shape == 4:
+            # the classic: ?x. !x. B0 <= B1  /  !x. ?x. B1 < B0
+            g = r.choice([("ex", "o#", ty, ("all", "i#", ty, ("le", ty, i, o), stored), stored),
+                          ("all", "o#", ty, ("ex", "i#", ty, ("lt", ty, o, i), stored), stored),
+                          ("ex", "o#", ty, ("ex", "i#", ty, ("lt", ty, i, o), stored), stored),
+                          ("ex", "o#", ty, ("all", "i#", ty, ("eq", ty, i, o), stored), stored),
+                          ("all", "o#", ty, ("all", "i#", ty, ("le", ty, i, o), stored), stored)])
+        else:
+            inner = (q(), "i#", ty, self.relat(ty, ("add", ty, i, lit), o), stored)
+            g = (q(), "o#", ty, ("not", inner), stored)
+        return self.pol(g)
+
+    def ofnat_bound(self):
+        r = self.r
+        m, n, a = ("var", "m", N), ("var", "n", N), ("var", "a", R)
+        on = lambda t: ("ofnat", t)
+        k = num(R, r.choice([1, 2, 3]))
+        half = num(R, Fraction(1, 2))
+        fams = [
+            lambda: ("all", "m", N, ("ex", "n", N, ("gt", R, on(n), on(m)))),
+            lambda: ("ex", "n", N, ("all", "m", N, ("le", R, on(m), on(n)))),
+            lambda: ("all", "m", N, ("ex", "n", N, ("eq", R, on(n), ("add", R, on(m), num(R, 1))))),
+            lambda: ("all", "m", N, ("ex", "n", N, ("lt", R, on(n), on(m)))),
+            lambda: ("all", "a", R, ("ex", "n", N, ("lt", R, a, on(n)))),
+            lambda: ("ex", "a", R, ("all", "n", N, ("ge", R, a, on(n)))),
+            lambda: ("all", "a", R, ("imp", ("and", ("le", R, num(R, 0), a), ("lt", R, a, k)),
+                                      ("ex", "n", N, ("and", ("lt", R, a, on(n)), ("le", R, on(n), ("add", R, a, num(R, 1))))))),
+            lambda: ("all", "a", R, ("imp", ("lt", R, a, k), ("ex", "n", N, ("lt", R, a, on(n))))),
+            lambda: ("ex", "n", N, ("or", ("and", ("lt", R, on(n), num(R, 1)), ("eq", N, n, num(N, 1))),
+                                          ("and", ("ge", R, on(n), num(R, 1)), ("eq", N, n, num(N, 0))))),
+            lambda: ("all", "n", N, ("or", ("and", ("lt", R, on(n), num(R, 1)), ("eq", N, n, num(N, 0))),
+                                           ("and", ("ge", R, on(n), num(R, 1)), ("ge", N, n, num(N, 1))))),
+            lambda: ("all", "m", N, ("ex", "n", N, ("and", ("eq", N, n, m), ("not", ("eq", R, on(n), on(("max", N, n, m))))))),
+            lambda: ("all", "m", N, ("ex", "n", N, ("and", ("eq", N, n, m), ("eq", R, on(n), on(("max", N, n, m)))))),
+            lambda: ("ex", "n", N, ("eq", R, on(n), on(("var", "x", N)))),
+            lambda: ("ex", "n", N, ("and", ("eq", R, on(n), on(("var", "x", N))), ("not", ("eq", N, n, ("var", "x", N))))),
+            lambda: ("all", "n", N, ("ge", R, on(n), num(R, 0))),
+            lambda: ("ex", "n", N, ("lt", R, on(n), num(R, 0))),
+            lambda: ("ex", "n", N, ("eq", R, on(n), half)),
+            lambda: ("all", "m", N, ("ex", "n", N, ("and", ("lt", R, on(m), ("add", R, on(n), half)), ("lt", R, on(n), ("add", R, on(m), half))))),
+            lambda: ("ex", "n", N, ("all", "m", N, ("imp", ("lt", R, on(m), on(n)), ("eq", N, m, num(N, 0))))),
+            lambda: ("all", "m", N, ("ex", "n", N, ("eq", R, ("mul", R, num(R, 2), on(n)), ("add", R, on(m), on(m))))),
+            lambda: ("all", "a", R, ("ex", "n", N, ("ex", "m", N, ("lt", R, ("sub", R, on(m), on(n)), a)))),
+            # of_int: untranslatable, the step must fail unless the rest is contradictory
+            lambda: ("ex", "i", I, ("lt", R, ("ofint", ("var", "i", I)), num(R, 0))),
+            lambda: ("all", "i", I, ("ge", R, ("ofint", ("var", "i", I)), num(R, 0))),
+            lambda: ("imp", ("ex", "i", I, ("eq", R, ("ofint", ("var", "i", I)), half)), ("ff",)),
+            lambda: ("all", "i", I, ("ex", "n", N, ("le", R, ("ofint", ("var", "i", I)), on(n)))),
+            lambda: ("ex", "n", N, ("all", "i", I, ("le", R, ("ofint", ("var", "i", I)), on(n)))),
+        ]
+        if r.random() < 0.3:
+            # random prefix / random body over of_nat of the bound variables
+            vs = [("m", N), ("n", N)] if r.random() < 0.7 else [("a", R), ("n", N)]
+            tm = lambda v: ("var", v[0], v[1]) if v[1] == R else on(("var", v[0], N))
+            t1 = r.choice([tm(vs[0]), ("add", R, tm(vs[0]), self.lit(R)), ("mul", R, num(R, 2), tm(vs[0]))])
+            t2 = r.choice([tm(vs[1]), ("add", R, tm(vs[1]), self.lit(R))])
+            body = self.relat(R, t2, t1)
+            if r.random() < 0.4:
+                body = (r.choice(["and", "or", "imp"]), body, self.relat(R, tm(vs[1]), self.lit(R)))
+            g = body
+            for v in reversed(vs if r.random() < 0.5 else vs[::-1]):
+                g = (r.choice(["all", "ex"]), v[0], v[1], g)
+            return self.pol(g)
+        return self.pol(r.choice(fams)())
+
+    def directed(self):
+        return self.same_name_binders() if self.r.random() < 0.5 else self.ofnat_bound()
+
     def wrap(self, g):
         """Place a goal at varying polarity / under propositional structure."""
         r = self.r
@@ -950,7 +1084,13 @@ def judge(H, goal, rng, budget):
         for c in enc.negated_goal(goal):
             s.add(c)
         r = str(s.check())
-    except z3.Z3Exception as e:  # noqa
+        if r not in ("sat", "unsat") and int_valued_reals(goal):
+            enc = Enc(z3, real_as_int=True)
+            s = z3.Solver()
+            for c in enc.negated_goal(goal):
+                s.add(c)
+            r = str(s.check())
+    except (z3.Z3Exception, ValueError) as e:  # noqa
         return ("no-countermodel-found", "oracle-encoding-error")
     if r == "unsat":
         return ("valid-by-oracle",)
@@ -1013,13 +1153,15 @@ def decide_closed(z3, node, v, env):
     closed = subst_vals(node, v, env)
     if closed is None:
         return None
+    modes = [False, True] if int_valued_reals(closed) else [False]
     try:
-        for want, f in ((True, ("not", closed)), (False, closed)):
-            s = z3.Solver()
-            s.add(Enc(z3).enc(f))
-            if str(s.check()) == "unsat":
-                return want
-    except z3.Z3Exception:
+        for mode in modes:
+            for want, f in ((True, ("not", closed)), (False, closed)):
+                s = z3.Solver()
+                s.add(Enc(z3, real_as_int=mode).enc(f))
+                if str(s.check()) == "unsat":
+                    return want
+    except (z3.Z3Exception, ValueError):
         return None
     return None
 
@@ -1094,6 +1236,54 @@ class GS:
         if op == "pow":
             return ("pow", R, s(), r.choice([2, 2, 3]))
         return (op, R, s())
+
+    def inner_quot(self):
+        """a quotient to be placed inside a divisor or a numerator"""
+        r, X = self.r, self.X
+        one = num(R, 1)
+        c = self.q([1, -1, 2, Fraction(1, 2), 0])
+        xc = ("sub", R, X, c)
+        return r.choice([
+            ("div", X, X), ("div", ("mul", R, num(R, 2), X), X), ("div", X, ("mul", R, X, X)), ("div", one, ("div", one, X)),
+            ("div", xc, xc), ("div", X, xc), ("div", ("mul", R, X, X), X), ("div", ("div", one, X), ("div", one, X)),
+            ("div", one, X), ("div", xc, X), ("div", ("abs", R, X), X), ("div", ("add", R, X, one), ("add", R, X, one)),
+            ("div", X, ("abs", R, X)), ("div", ("mul", R, X, xc), ("mul", R, X, xc)), ("div", num(R, 2), ("div", X, num(R, 3))),
+        ])
+
+    def nested_quot(self):
+        """a term with a quotient nested in a divisor and/or a numerator"""
+        r = self.r
+        one = num(R, 1)
+        q1, q2 = self.inner_quot(), self.inner_quot()
+        e = self.ex(1)
+        return r.choice([("div", one, q1), ("div", e, q1), ("div", q1, e), ("div", q1, q2), ("div", q1, q1),
+                         ("div", ("add", R, q1, e), q1), ("div", one, ("add", R, q1, one)), ("div", one, ("div", one, q1)),
+                         ("mul", R, q1, ("div", one, q1)), ("div", ("div", q1, q2), q1), ("add", R, ("div", one, q1), e)])
+
+    def nested_plain(self):
+        r = self.r
+        t = self.nested_quot()
+        one, zero = num(R, 1), num(R, 0)
+        return r.choice([
+            lambda: ("eq", R, t, one), lambda: ("eq", R, t, self.X), lambda: ("eq", R, t, t), lambda: ("eq", R, t, self.ex(1)),
+            lambda: ("not", ("eq", R, t, zero)), lambda: ("not", ("eq", R, t, self.q())), lambda: ("gt", R, t, zero),
+            lambda: ("ge", R, t, one), lambda: ("ge", R, ("abs", R, t), zero), lambda: ("le", R, t, t),
+            lambda: ("eq", R, ("sub", R, t, t), zero), lambda: ("eq", R, ("mul", R, t, zero), zero),
+        ])()
+
+    def nested_interval(self):
+        r, X = self.r, self.X
+        pool = [0, 1, -1, 2, -2, Fraction(1, 2), Fraction(-1, 2), 3]
+        l, u = sorted([Fraction(r.choice(pool)), Fraction(r.choice(pool))])
+        cond = (r.choice(["cint", "cint", "oint"]), X, num(R, l), num(R, u))
+        t = self.nested_quot()
+        one, zero = num(R, 1), num(R, 0)
+        goal = r.choice([
+            lambda: ("gt", R, t, zero), lambda: ("ge", R, t, zero), lambda: ("ge", R, t, one), lambda: ("le", R, t, one),
+            lambda: ("not", ("eq", R, t, zero)), lambda: ("not", ("eq", R, t, self.q())), lambda: ("ge", R, ("abs", R, t), zero),
+            lambda: ("gt", R, ("abs", R, t), zero), lambda: ("not", ("eq", R, ("sub", R, t, one), zero)), lambda: ("le", R, t, t),
+        ])()
+        return goal, cond
 
     def natc(self, d):
         r = self.r
@@ -1260,10 +1450,15 @@ def sympy_stage(ctx, H):
     n = ctx.scale(500, 5000)
     nacc = 0
     for idx in range(n):
-        if rng.random() < 0.5:
+        c = rng.random()
+        if c < 0.35:
             goal, cond = g.plain(), None
-        else:
+        elif c < 0.7:
             goal, cond = g.interval()
+        elif c < 0.85:
+            goal, cond = g.nested_plain(), None
+        else:
+            goal, cond = g.nested_interval()
         mode = "macro" if idx % 4 == 3 else "direct"
         res = call_sympy(H, goal, cond, mode)
         ctx.case(("sympy", canon(goal), canon(cond) if cond else None), nontrivial=size(goal) >= 4)
@@ -1592,6 +1787,64 @@ def sympy_check_one(ctx, H, goal, cond, mode, label):
     return True
 
 
+def sympy_history_stage(ctx, H):
+    """The wrapper keeps module-level state (solveset cache): the same goal is asked under the
+    open and the closed interval over the SAME end points, in varied orders within this one
+    process, mixed with related goals over these end points; every acceptance is judged on its own.
+    A violation's replay carries the queries asked before it in its group."""
+    rng = ctx.rng("sympy-history")
+    X = ("var", "x", R)
+    one, zero = num(R, 1), num(R, 0)
+    pool = [0, 1, -1, 2, -2, Fraction(1, 2), Fraction(-1, 2), 3, Fraction(3, 2)]
+    ngroups = ctx.scale(70, 500)
+    nacc = 0
+    for gi in range(ngroups):
+        l, u = sorted(rng.sample(pool, 2))
+        L, U = num(R, l), num(R, u)
+        e = rng.choice([L, U])
+        xe = ("sub", R, X, e)
+        templates = [
+            ("not", ("eq", R, X, e)), ("not", ("eq", R, xe, zero)),
+            ("not", ("eq", R, ("mul", R, ("sub", R, X, L), ("sub", R, X, U)), zero)),
+            ("not", ("eq", R, ("sub", R, ("mul", R, X, X), ("mul", R, e, e)), zero)),
+            ("not", ("eq", R, ("div", one, xe), zero)), ("not", ("eq", R, ("div", xe, xe), zero)),
+            ("not", ("eq", R, ("div", one, ("div", xe, xe)), zero)),
+            ("gt", R, X, L), ("lt", R, X, U), ("ge", R, X, L),
+            ("gt", R, ("mul", R, ("sub", R, X, L), ("sub", R, U, X)), zero),
+            ("ge", R, ("mul", R, ("sub", R, X, L), ("sub", R, U, X)), zero),
+            ("gt", R, ("div", one, ("sub", R, X, L)), zero), ("gt", R, ("abs", R, xe), zero),
+            ("not", ("eq", R, ("abs", R, xe), zero)),
+        ]
+        goal = rng.choice(templates)
+        other = rng.choice(templates)
+        kinds = rng.choice([["oint", "cint"], ["cint", "oint"], ["oint", "cint", "oint", "cint"], ["cint", "oint", "cint"],
+                            ["oint", "oint", "cint"], ["oint", "cint", "cint"]])
+        queries = [(goal, (k, X, L, U)) for k in kinds]
+        if rng.random() < 0.5:
+            queries.insert(rng.randint(0, len(queries)), (other, (rng.choice(["oint", "cint"]), X, L, U)))
+        if rng.random() < 0.3:
+            queries.append((other, (rng.choice(["oint", "cint"]), X, L, U)))
+        history = []
+        for qi, (gl, cond) in enumerate(queries):
+            mode = "macro" if (gi + qi) % 3 == 0 else "direct"
+            res = call_sympy(H, gl, cond, mode)
+            ctx.case(("sympy-h", gi, qi, canon(gl), canon(cond)), nontrivial=True)
+            ctx.count("sympy:history:%s" % (res if not res.startswith("raise") else "fails-with-exception"))
+            if res == "accept":
+                nacc += 1
+                pt = sympy_counterexample(gl, cond)
+                if pt is not None:
+                    ctx.violation("sympy:accepts-invalid:%s|%s" % (canon(gl), canon(cond)),
+                                  "sympywrapper (%s) accepts %s under %s, which is false in HOL at x = %s (asked after %d related queries in this process)" % (
+                                      mode, H.term(gl), H.term(cond), pt, len(history)),
+                                  {"kind": "sympy", "goal": tolist(gl), "cond": tolist(cond), "mode": mode, "x": str(pt),
+                                   "history": [[tolist(a), tolist(b), m] for a, b, m in history]})
+                else:
+                    ctx.count("sympy:oracle:no-counterexample-on-grid")
+            history.append((gl, cond, mode))
+    ctx.log("sympy history stage: %d groups, %d accepted" % (ngroups, nacc))
+
+
 def run(ctx):
     ctx.coverage["rule"] = (
         "Z3: goals of the translatable fragment built from ~150 families of valid facts and near misses (truncated nat subtraction, "
@@ -1647,10 +1900,23 @@ def run(ctx):
         ctx.sample({"z3_goal": str(H.term(x))})
     n = z3_check_goals(ctx, H, goals, ctx.rng("z3-oracle"), "gen")
     ctx.log("z3 stage: %d goals, %d accepted" % (len(goals), n))
-    # 4. SymPy oracle stream
+    gd = G(ctx.rng("z3-directed"))
+    dgoals = []
+    for _ in range(ctx.scale(220, 1500)):
+        x = gd.directed()
+        try:
+            H.term(x).checked_get_type()
+            dgoals.append(x)
+        except Exception as e:  # noqa
+            ctx.count("z3:directed:not-a-term:" + type(e).__name__)
+    ctx.sample({"z3_directed_goal": str(H.term(dgoals[0]))})
+    n = z3_check_goals(ctx, H, dgoals, ctx.rng("z3-oracle-directed"), "directed")
+    ctx.log("z3 directed stage: %d goals, %d accepted" % (len(dgoals), n))
+    # 4. SymPy oracle streams
     sympy_stage(ctx, H)
+    sympy_history_stage(ctx, H)
     # 5. correspondence with the model
-    correspondence(ctx, H, cz + goals, "gen")
+    correspondence(ctx, H, cz + goals + dgoals, "gen")
     must = ["z3:gen:accept", "z3:gen:reject", "z3:oracle:valid-by-oracle", "sympy:plain:accept", "sympy:interval:accept", "corr:gen:agree",
             "corr:kind:error:z3exc"]
     missing = [m for m in must if not ctx.coverage["histogram"].get(m)]
@@ -1666,6 +1932,8 @@ def replay(ctx, rp):
     if r.get("kind") == "z3":
         z3_check_goals(ctx, H, [totuple(r["goal"])] * 5 if r.get("via_macro") else [totuple(r["goal"])], ctx.rng("replay"), "replay")
     elif r.get("kind") == "sympy":
+        for a, b, m in r.get("history", []):
+            call_sympy(H, totuple(a), totuple(b) if b else None, m)
         sympy_check_one(ctx, H, totuple(r["goal"]), totuple(r["cond"]) if r.get("cond") else None, r.get("mode", "direct"), "replay")
     elif r.get("kind") == "flag":
         flag_checks(ctx, H)
